@@ -10,6 +10,7 @@
 #include <stdlib.h>
 
 #include <cmath>
+#include <limits>
 #include <tuple>
 #include <utility>
 
@@ -190,6 +191,24 @@ struct RunDyn
     if constexpr (K >= 1) { putm(J, std::get<1>(res)); }
     if constexpr (K >= 2) { putm(H, std::get<2>(res)); }
     puta(after, xd);
+    puta(after, xs);
+  }
+};
+// index subset with the dynamic-size argument OUTSIDE the subset and handed over as an rvalue (wrt(std::move(xd), xs)): the result
+// is still the matching columns of the full derivative and the caller's object keeps its contents
+template<std::size_t K, int NOUT, int ID, int NDYN>
+struct RunDynSub
+{
+  static void go(const double * x, double * f, double * J, double * H, double * after)
+  {
+    Eigen::VectorXd xd = Eigen::Map<const Eigen::VectorXd>(x, NDYN);
+    Eigen::Vector2d xs = Eigen::Map<const Eigen::Vector2d>(x + NDYN);
+    const auto res     = diff::dr<K, diff::Type::Numerical>(UF<ID, NOUT>{}, wrt(std::move(xd), xs), std::index_sequence<1>{});
+    putm(f, std::get<0>(res));
+    if constexpr (K >= 1) { putm(J, std::get<1>(res)); }
+    if constexpr (K >= 2) { putm(H, std::get<2>(res)); }
+    for (int i = 0; i < NDYN; ++i) { after[i] = i < xd.size() ? xd(i) : std::numeric_limits<double>::quiet_NaN(); }
+    after += NDYN;
     puta(after, xs);
   }
 };
